@@ -65,6 +65,9 @@ Definition set_creq (q : quota) (c : vec) : quota :=
 Definition set_taint (q : quota) (b : bool) : quota :=
   mkQuota (q_id q) (q_parent q) (q_lend q) (q_decl q) (q_max q) (q_mindecl q) (q_min q) (q_weight q)
           (q_used q) (q_npused q) (q_creq q) b.
+Definition set_lend (q : quota) (b : bool) : quota :=
+  mkQuota (q_id q) (q_parent q) b (q_decl q) (q_max q) (q_mindecl q) (q_min q) (q_weight q)
+          (q_used q) (q_npused q) (q_creq q) (q_taint q).
 Definition set_spec (q : quota) (mx : vec) (mindecl : mask) (mn w : vec) : quota :=
   mkQuota (q_id q) (q_parent q) (q_lend q) (q_decl q) mx mindecl mn w
           (q_used q) (q_npused q) (q_creq q) (q_taint q).
@@ -76,6 +79,11 @@ Record pod := mkPod {
 
 Record state := mkState { quotas : list quota; pods : list pod; total : vec }.
 Record config := mkConfig { rt_on : bool; chk_parent : bool }.
+
+(* The is-parent label is a function of the id: quotas with an even id carry is-parent=true (the
+   harness names and labels them accordingly); child quotas can only be created under them, with a
+   larger id than their parent (what the webhook's parent check plus creation order give). *)
+Definition is_parent_id (id : Z) : bool := Z.even id.
 
 Definition init_state : state := mkState [] [] vzero.
 
@@ -228,6 +236,10 @@ Definition refund (st : state) (p : pod) : list quota :=
   let dl := pod_delta st p in
   upd_used ids (fun u => vsub_clamp u dl) (fun u => if p_np p then vsub_clamp u dl else u) (quotas st).
 
+(* Reserve after a PreFilter that answered [v] *)
+Definition apply_attempt (st : state) (p : pod) (v : Z) : state :=
+  if (v =? 0) && negb (p_assigned p) then charge st p else st.
+
 (* ---------- operations ---------- *)
 Inductive op :=
 | OQuotaAdd (id parent : Z) (lend : bool) (decl : mask) (mx : vec) (mindecl : mask) (mn w : vec)
@@ -240,6 +252,7 @@ Inductive op :=
 | OPodDelete (id : Z)
 | OCapacity (t : vec)
 | OPodAddBound (id quota : Z) (np : bool) (req : vec) (keys : mask)  (* already-bound pod replayed by the informer *)
+| OQuotaFlipLend (id : Z)    (* allow-lent-resource label flipped: a META change, UpdateQuota rebuilds the whole tree *)
 | ONop.
 
 (* what is logged after every operation *)
@@ -271,7 +284,7 @@ Definition step (cfg : config) (st : state) (o : op) : state * obs :=
     let ok_parent :=
       if parent =? 0 then true
       else match find_quota parent (quotas st) with
-           | Some P => mask_eqb (q_decl P) decl
+           | Some P => mask_eqb (q_decl P) decl && is_parent_id parent && (parent <? id)
            | None => false
            end in
     if (id <=? 0) || (match find_quota id (quotas st) with Some _ => true | None => false end)
@@ -327,7 +340,7 @@ Definition step (cfg : config) (st : state) (o : op) : state * obs :=
     | Some p =>
       let pth := path st (p_quota p) in
       let v := admission cfg st p pth in
-      let st' := if (v =? 0) && negb (p_assigned p) then charge st p else st in
+      let st' := apply_attempt st p v in
       (st', mkObs v (limits cfg st pth) (dump st'))
     end
   | OCheck id =>
@@ -357,6 +370,15 @@ Definition step (cfg : config) (st : state) (o : op) : state * obs :=
       plain (mkState (touch_request st p (if p_assigned p then refund st p else quotas st) ps)
                      ps (total st))
     | None => skip
+    end
+  | OQuotaFlipLend id =>
+    match find_quota id (quotas st) with
+    | None => skip
+    | Some _ =>
+      (* updateQuotaInfoFromRemote + resetQuotaNoLock: every calculator is rebuilt and every
+         quota's request re-propagated bottom-up; used / non-preemptible used are carried over *)
+      let qs1 := map (fun q => if q_id q =? id then set_lend q (negb (q_lend q)) else q) (quotas st) in
+      plain (mkState (refresh (map q_id qs1) qs1 (pods st)) (pods st) (total st))
     end
   | OCapacity t => plain (mkState (quotas st) (pods st) t)
   | ONop => skip
@@ -393,3 +415,11 @@ Definition track (cfg : config) (st : state) (sn : snap) (o : op) : snap :=
     end
   | _ => sn
   end.
+
+(* ---------- usage recomputed from the pods that are currently assigned ---------- *)
+Definition pod_share (st : state) (q : quota) (p : pod) : vec :=
+  if p_assigned p && mem_id (q_id q) (map q_id (path st (p_quota p))) then pod_delta st p else vzero.
+Definition exp_used (st : state) (q : quota) (d : dim) : Z :=
+  sumZ (map (fun p => vget (pod_share st q p) d) (pods st)).
+Definition exp_npused (st : state) (q : quota) (d : dim) : Z :=
+  sumZ (map (fun p => if p_np p then vget (pod_share st q p) d else 0) (pods st)).
